@@ -332,11 +332,12 @@ class PedReader:
 
     def samples(self) -> Sequence[str]:
         """Return a list of all mentioned individuals"""
-        samples = set()
+        # (a dict keeps the individuals in the order of the file: the order must not depend on hashing)
+        samples = dict()
         for trio in self.trios:
             if trio.child is None or trio.mother is None or trio.father is None:
                 continue
-            samples.add(trio.father)
-            samples.add(trio.mother)
-            samples.add(trio.child)
+            samples[trio.father] = None
+            samples[trio.mother] = None
+            samples[trio.child] = None
         return list(samples)
